@@ -22,7 +22,7 @@ ID = "C18"
 LEVEL = "model_checking"
 RULE = (
     "factored: ALL configurations = instance-metric subsets (15) x global-metric subsets (8) x 12 group sets (names incl. '-', 'a-b-c', 'x-y', space, tab, upper case, 'ü', a metric-like name; kinds plain/merge/single) x "
-    "handler in {default, all-NaN, all-INF, all-NONE, asymmetric} x log_times {F,T} (14400) x 3 subject sequences; and 24 configurations x ALL subject sequences of length <= 2 (thorough <= 3) over "
+    "handler in {default, all-NaN, all-INF, all-NONE, asymmetric} x log_times {F,T} (14400; every third configuration additionally with the evaluator recording group times) x 3 subject sequences; and 24 configurations x ALL subject sequences of length <= 2 (thorough <= 3) over "
     "{'s1','a b','x<TAB>y','-','','1e5','nan','ü','q\"r'} (+ 'subject_name' thorough). Inputs cycle over tp>0 (1/3-type floats), empty prediction, no instances, disjoint. "
     "non-trivial = >= 2 groups or a name containing '-', tab, quote or nothing; distinct by (configuration, sequence)"
 )
@@ -53,7 +53,7 @@ GROUPSETS = [
 H_NAMES = ("default", "nan", "inf", "none", "asym")
 SUBJ = ["s1", "a b", "x\ty", "-", "", "1e5", "nan", "ü", 'q"r']
 SEQ3 = [["s1", "s2"], ["a b", "x\ty"], ["-", "", "1e5"]]
-INPUT_CYCLE = ("tp", "empty_pred", "none", "miss")
+INPUT_CYCLE = ("tp", "empty_pred", "none", "miss", "partial")
 
 
 def handler_cfg(name):
@@ -146,8 +146,10 @@ def run_case(case, acc):
     acc.step(2 + 2 * len(seq))
     try:
         ev = make_evaluator("UNMATCHED", matcher=["thr", "IOU", 0.5, False], instance_metrics=IM_SUBSETS[im], global_metrics=GM_SUBSETS[gm], handler=handler_cfg(H_NAMES[hn]), groups=make_groups(GROUPSETS[gs]))
-        if lt and case["cfg"] % 3 == 0:
-            ev.set_log_group_times(True)  # computation_time cells are then filled: the columns behind them must not shift
+        if case["cfg"] % 3 == 0:
+            # the evaluator records computation times (independently of the aggregator's log_times): with log_times the cells are
+            # filled, without it the value exists in the result but has no column - nothing may shift either way
+            ev.set_log_group_times(True)
         A = Panoptica_Aggregator(ev, "/vfs/d/out.tsv", log_times=bool(lt))
         expected = {}
         order = []
